@@ -106,6 +106,8 @@ def _spec(e, sig, ip, dtname, axis_kind, rank):
                     return S.lift(rank)
             if nm == "len" and len(x.args) == 2 and shape_of(x.args[1]):
                 return S.lift(rank)
+            if nm == "tuple" and len(x.args) == 2 and isinstance(x.args[1], S.E) and (SC.is_call(x.args[1], "stored", "list") or x.args[1].op == "mul"):
+                return x.args[1]  # tuple(<list of lengths>): as a shape argument the same thing as the list
         return None
 
     out = SC.canon_np(e)
